@@ -26,6 +26,7 @@ type LoopSpec struct {
 	GhostDefs  []*Clause
 	Unroll     int
 	Invariants []*Clause
+	Steps      []*Clause // proved at the back edge: relate this iteration's calls to the progress made
 	Assumes    []*Clause
 	Decreases  *Clause
 }
@@ -478,7 +479,7 @@ func (sp *Specs) parseLine(cur **Contract, line, file string, ln int) error {
 				return err
 			}
 			ls.Unroll = n
-		case "invariant", "decreases", "assume", "ghostdef":
+		case "invariant", "decreases", "assume", "ghostdef", "step":
 			e, err := parseCExpr(lrest)
 			if err != nil {
 				return err
@@ -487,6 +488,8 @@ func (sp *Specs) parseLine(cur **Contract, line, file string, ln int) error {
 			switch lkw {
 			case "invariant":
 				ls.Invariants = append(ls.Invariants, cl)
+			case "step":
+				ls.Steps = append(ls.Steps, cl)
 			case "assume":
 				ls.Assumes = append(ls.Assumes, cl)
 			case "ghostdef":
